@@ -171,6 +171,8 @@ Section RP.
   (* ---- histories in one browser ---- *)
   Inductive op :=
   | OStart (s v : string)                         (* browser opens the login URL and stores the cookies *)
+  | OStartFail (s : string)                       (* login whose state the CookieHandler cannot encode
+                                                     (securecookie: value too long; oracle = the real Encode) *)
   | OCallback (q : params) (tok_ok apply : bool)  (* browser calls the callback; apply = it processes the response's cookies *)
   | OSet (n : string) (c : cval)                  (* something else writes a cookie into the jar *)
   | ODel (n : string).                            (* ... or removes one (also: a late response's deletion) *)
@@ -178,6 +180,7 @@ Section RP.
   Definition respond (cfg : config) (j : jar) (o : op) : event :=
     match o with
     | OStart s v => start_login cfg s v
+    | OStartFail _ => EvOther          (* unauthorized handler, no cookie, no redirect *)
     | OCallback q ok _ => callback cfg j q ok
     | OSet _ _ | ODel _ => EvNone
     end.
@@ -192,7 +195,7 @@ Section RP.
   (* the browser: how the jar changes given the operation and the RP's response *)
   Definition jar_after (j : jar) (o : op) (ev : event) : jar :=
     match o with
-    | OStart _ _ => jar_apply j (ev_cookies ev)
+    | OStart _ _ | OStartFail _ => jar_apply j (ev_cookies ev)
     | OCallback _ _ apply => if apply then jar_apply j (ev_cookies ev) else j
     | OSet n c => jar_set n c j
     | ODel n => jar_del n j
